@@ -32,6 +32,13 @@ Definition buffer_okb (c : outcfg) (f : finfo) : bool :=
   let t := prepare_ticksize (oc_rate c) (oc_tfn c) (oc_tfd c) (fi_bpm f) in
   (fi_buffer_size f =? buffer_size (oc_mono c) (oc_8bit c) t) &&
   (fi_total_size f =? XMP_MAX_FRAMESIZE).
+(* the reported frame time (microseconds) is the tick duration time_factor*rrate/tempo of the *current* tempo - the same
+   quantity the buffer size was computed from, so buffer size and sampling rate x frame time agree (one microsecond of
+   slack for the double -> int conversion) *)
+Definition frametime_okb (c : outcfg) (f : finfo) : bool :=
+  let ft := (oc_tfn c * 1000) / (oc_tfd c * fi_bpm f) in
+  (ft - 1 <=? fi_frame_time f) && (fi_frame_time f <=? ft + 1).
+
 (* the documented bound in the unit the documentation uses (bytes) *)
 Definition buffer_bytes_within_limit (f : finfo) : bool := fi_buffer_size f <=? XMP_MAX_FRAMESIZE.
 
@@ -40,7 +47,7 @@ Definition voices_okb (f : finfo) : bool :=
 Definition sequence_okb (m : modshape) (f : finfo) : bool := (0 <=? fi_sequence f) && (fi_sequence f <? ms_nseq m).
 
 Definition frame_info_okb (m : modshape) (c : outcfg) (f : finfo) : bool :=
-  position_okb m f && tempo_okb f && buffer_okb c f && voices_okb f && sequence_okb m f.
+  position_okb m f && tempo_okb f && buffer_okb c f && frametime_okb c f && voices_okb f && sequence_okb m f.
 
 (* between position-control calls the loop counter never decreases *)
 Fixpoint loops_nondecreasing (prev : Z) (l : list Z) : bool :=
